@@ -35,7 +35,7 @@ claim("C19", "other",
       "DESIGN.md section 1, C19")
 
 claim("C20", "other",
-      "Symbolic execution of the real bipartite_vertex_cover on graphs whose adjacency bits are solver variables (all graphs up to 3x3 in quick; up to 12-16 bits "
+      "Symbolic execution of the real bipartite_vertex_cover on graphs whose adjacency bits are solver variables (all graphs up to 3x3 plus 1x6, 6x1 and, for the augmenting-path algorithm, 3x4 and 4x3 in quick; up to 12-16 bits "
       "in thorough); for Hopcroft-Karp SciPy's matching is a contract stub returning every maximum matching, so Koenig's construction is checked for every "
       "maximum matching. Obligations per path: edge cover, |cover| = maximum matching (independent oracle), no internal assertion reachable.",
       "Trusts z3, the SYMNUM explorer and the harness' exhaustive matching oracle; SciPy's matching is trusted to return *a* maximum matching. Edgeless graphs "
